@@ -25,6 +25,27 @@ def table():
     return out
 
 
+def numbers():
+    """{error number: NAME} from enum ErrorCode (the PE/PW number printed with every diagnostic)"""
+    src = open(os.path.join(REPO, "include", "express", "error.h"), errors="replace").read()
+    m = re.search(r"enum\s+ErrorCode\s*\{(.*?)\}", src, re.S)
+    body = re.sub(r"/\*.*?\*/", "", m.group(1), flags=re.S) if m else ""
+    out, n = {}, 0
+    for item in body.split(","):
+        item = item.strip()
+        if not item:
+            continue
+        mm = re.match(r"(\w+)\s*(?:=\s*(\d+))?$", item)
+        if not mm:
+            continue
+        n = int(mm.group(2)) if mm.group(2) else n + 1
+        out[n] = mm.group(1)
+    return out
+
+
+_NUM = {}
+
+
 def parse(stderr_text, tbl):
     """-> list of dict(file, line, sev, num, msg, code, args, cls)"""
     diags = []
@@ -34,7 +55,12 @@ def parse(stderr_text, tbl):
             continue
         d = dict(file=m.group("file"), line=int(m.group("line")), sev="ERROR" if m.group("sev") == "--ERROR" else "WARNING",
                  num=int(m.group("num")), msg=m.group("msg"), code="", args=[], cls="")
-        for name, sev, tmpl, cls, rx in tbl:
+        # the message of the printed number first (several templates are so general that they match other messages too),
+        # then any template that fits
+        if REPO not in _NUM:
+            _NUM[REPO] = numbers()
+        own = _NUM[REPO].get(d["num"])
+        for name, sev, tmpl, cls, rx in sorted(tbl, key=lambda e: e[0] != own):
             mm = rx.match(d["msg"])
             if mm and (sev == "SEVERITY_WARNING") == (d["sev"] == "WARNING"):
                 d["code"], d["args"], d["cls"] = name, list(mm.groups()), cls or ""
